@@ -34,6 +34,32 @@ TRUSTED = ["tools/skeletons/cli_*.txt"]
 PLUGINS = ["strikethrough", "footnotes", "table", "speedup", "url", "task_lists", "def_list", "abbr", "mark", "math", "spoiler"]
 
 
+def fixed_requests():
+    """corner requests that every run makes (the sampled ones meet them only now and then): messages whose first character means
+    something to an argument parser, plugin lists in the orders that matter to the library, notes, inline images with every renderer"""
+    out = []
+
+    def req(content, channel="-m", plugins=None, renderer=None, **kw):
+        q = {"content": content, "channel": channel, "plugins": plugins, "escape": False, "hardwrap": False, "renderer": renderer, "output": False,
+             "long_flags": False, "order": 0.5, "split_p": False, "id": 800000 + len(out)}
+        q.update(kw)
+        out.append(q)
+    for c in ["@alice thanks for the *patch*", "@", "@opts.txt", "+x", "=a", "@file.md and text"]:
+        req(c)
+        req(c, long_flags=True, output=True)
+    for ps in (["speedup", "url"], ["url", "speedup"], ["speedup", "strikethrough", "url", "table"], ["speedup", "spoiler"], ["spoiler", "speedup"]):
+        for ch in ("-m", "-f", "stdin"):
+            req("see https://example.com/a now and >!hidden!< text\n", ch, ps)
+            req("see https://example.com/a now\n", ch, ps, split_p=True)
+    for ps in (["footnotes"], ["footnotes", "table"], ["table", "footnotes", "url"], ["footnotes", "footnotes"]):
+        req("a[^1] b[^2] a[^1]\n\n[^1]: one\n[^2]: two\n", "stdin", ps)
+        req("a[^1]\n\n[^1]: one\n", "-f", ps, output=True)
+    for rn in ("rst", "markdown", "html", None):
+        for ch in ("-m", "-f", "stdin"):
+            req("text ![alt](i.png) more ![b](j.png 't')\n\n![alone](k.png)\n", ch, ["speedup"] if rn in ("rst", "markdown") else None, rn)
+    return out
+
+
 def gen_request(r, i):
     doc_r = r
     k = r.random()
@@ -262,6 +288,7 @@ def oracle(ctx, extra):
     fails = []
     try:
         reqs = [e for e in extra if isinstance(e, dict) and "channel" in e]
+        reqs += fixed_requests()
         reqs += [gen_request(r, i) for i in range(ctx.n(400, 6000))]
         n = 0
         for q in reqs:
